@@ -6,6 +6,7 @@ import itertools
 import random
 
 import batchrun
+import mtindep
 import build
 import optrun
 import verdict
@@ -16,7 +17,9 @@ LEVEL = "exploration"
 RULE = ("exhaustive strings over {a, b, blank} up to length 6 (quick) / 8 (thorough) x separators / patterns "
         "up to length 3 (empty included) x replacements up to length 2; all lists of 0-4 elements over "
         "{'', 'a', 'a ', ' ', 'ab'} x infixes {' ', ',', ', ', '', 'ab', default}; seeded random longer inputs "
-        "over a wider alphabet; distinct_nontrivial = distinct (function, arguments) tuples in which the "
+        "over a wider alphabet; a scale layer (16 ... 70000 pieces / elements, subjects, separators and elements of "
+        "15 ... 70000 bytes); a concurrent phase (lib/mtindep.py: 2-16 threads calling the four functions on "
+        "thread-private strings under ThreadSanitizer, results compared with the serial ones); distinct_nontrivial = distinct (function, arguments) tuples in which the "
         "separator / pattern / prefix occurs in the subject at least once, or (join) the list has an empty or "
         "blank-terminated element")
 
@@ -93,6 +96,35 @@ def _random_jobs(rng, n):
         else:
             lst = [b"".join(rng.choice(wide) for _ in range(rng.choice([0, 0, 1, 2, 5]))) for _ in range(rng.randint(0, 8))]
             yield ("join", rng.choice([b" ", b",", b"", b"--", None]), lst)
+
+
+def _scale_jobs(rng):
+    """piece counts, subject / separator / element lengths beyond small fixed-size buffers and narrow counters"""
+    for pieces in (16, 17, 64, 65, 255, 256, 257, 1000, 70000):
+        for sep in (b",", b"ab", b"-" * 17):
+            if pieces > 1000 and len(sep) > 1:
+                continue
+            parts = [rng.choice([b"", b"x", b"yz", b" "]) for _ in range(pieces)]
+            subject = sep.join(parts)
+            yield ("split", subject, sep)
+            yield ("repl", subject, sep, rng.choice([b"", b";", sep + sep]))
+    for n in (15, 16, 17, 255, 256, 257, 300, 4096, 4097, 70000):
+        body = bytes(rng.choice(b"abc ") for _ in range(n))
+        yield ("split", body, b"c")
+        yield ("split", body, body)                 # the separator is the whole subject
+        yield ("split", body + b"|" + body, b"|")
+        yield ("split", b"x" + body + b"y" + body + b"z", body)   # separator of n characters
+        yield ("repl", b"x" + body + b"y" + body, body, b"<>")
+        yield ("repl", body, b"a", body[:40])
+        yield ("sw", body + b"tail", body)
+        yield ("sw", body + b"tail", body[:-1] + b"#")
+        yield ("sw", body[:-1], body)
+        yield ("join", rng.choice([b" ", b", ", None]), [body, b"", body[:3], body])
+    for n in (16, 17, 64, 65, 255, 256, 257, 1000, 20000):
+        lst = [rng.choice([b"", b"e", b"el ", b"x" * 20]) for _ in range(n)]
+        yield ("join", rng.choice([b" ", b",", b"", b"--" * 10, None]), lst)
+        yield ("joini", b", ", [rng.randint(-1000, 1000) for _ in range(min(n, 1000))])
+        yield ("joins", b";", [rng.choice([b"w", b"word", b"x" * 20]) for _ in range(min(n, 1000))])
 
 
 def op_line(job):
@@ -253,6 +285,8 @@ def _work(arg):
     jobs = [j for i, j in enumerate(_jobs(tier)) if i % nch == chunk]
     rng = random.Random("c17-%d-%d" % (seed, chunk))
     jobs += list(_random_jobs(rng, (20000 if tier == "quick" else 400000) // nch))
+    if chunk % 8 == 0:
+        jobs += list(_scale_jobs(rng))
     res = batchrun.run_ops(exe, [op_line(j) for j in jobs])
     for job, r in zip(jobs, res):
         S.n += 1
@@ -289,7 +323,11 @@ def run(tier, replay=None):
     S = optrun.Summary()
     if replay:
         with open(replay) as fh:
-            job = verdict.unhex_json(json.load(fh))["case"]["job"]
+            rcase = verdict.unhex_json(json.load(fh))["case"]
+        if rcase.get("phase") == "concurrent-independent-use":
+            mtindep.replay(run_, rcase, S.counters)
+            return run_.finish(10, 1, RULE)
+        job = rcase["job"]
         job = tuple(job[:1] + [x for x in job[1:]])
         res = batchrun.run_ops(exe, [op_line(job)])
         S.n = 1
@@ -301,6 +339,8 @@ def run(tier, replay=None):
         n = nchunks(tier)
         for part in optrun.pmap(_work, [(tier, run_.seed, c, n, exe) for c in range(n)]):
             S.merge(part)
+        # the same functions from 2-16 threads on thread-private arguments: serial results, no data race
+        S.n += mtindep.phase(run_, "string", tier, S.counters)
     for key, what, case in S.viol:
         run_.violation(key, what, case)
     for r in S.inconc[:3]:
